@@ -253,6 +253,44 @@ def table_ops(ck, agg, nn):
                 later = _table_iters_after(out, muts[0].seq)
                 agg.add("R16.4", f_set, "the table is never iterated further after it was modified", not later, "iteration continues after a modification (RuntimeError: dictionary changed size)")
             if by_addr:
+                # R16.8 "never two IDs on one address" through load_dhcp()/set_address(search_by_address=True): when the call returns, no
+                # entry of another ID may still hold the address - some pass over the table has looked at every entry (or stopped at the
+                # one holder: the table is injective before the call), and each entry looked at differs in address, was deleted, or is the
+                # ID's own entry that the store overwrites
+                loops = {}
+                for e in out.trace:
+                    if e.kind == "for" and _is_table_items(e.data[0]):
+                        loops.setdefault(id(e.node), {"first": e.seq, "iters": [], "exhausted": False})
+                for e in out.trace:
+                    L = loops.get(id(e.node)) if e.kind in ("loop-iter", "loop-exit") else None
+                    if L is not None:
+                        if e.kind == "loop-iter":
+                            L["iters"].append(e.seq)
+                        else:
+                            L["exhausted"] = True
+                okl = False
+                why = "no pass over the table"
+                for L in loops.values():
+                    bounds = L["iters"] + [10 ** 9]
+                    holder = False
+                    unsafe = []
+                    for k_, lo_ in enumerate(L["iters"]):
+                        evs = [e for e in out.trace if lo_ < e.seq < bounds[k_ + 1]]
+                        cmps = [e for e in evs if e.kind == "cond" and isinstance(e.node, ast.Compare) and isinstance(e.data[1], tuple) and _equal(e) is not None]
+                        a_eq = [_equal(e) for e in cmps if _role(e, "dict-val") and any(const_of(norm(x)) == 0o15 for x in e.data[1])]
+                        i_eq = [_equal(e) for e in cmps if _role(e, "dict-key") and any(const_of(norm(x)) == 7 for x in e.data[1])]
+                        deleted = any(e.kind == "delitem" for e in evs)
+                        if True in a_eq:
+                            holder = True
+                        if not (False in a_eq or (True in a_eq and (deleted or True in i_eq)) or True in i_eq):
+                            unsafe.append(k_)
+                    if not unsafe and (L["exhausted"] or holder):
+                        okl = True
+                    else:
+                        why = "entries %r are passed over without their address being compared" % unsafe if unsafe else \
+                            "the pass over the table stops after %d entr%s although the entry holding the address has not been found" % (len(L["iters"]), "y" if len(L["iters"]) == 1 else "ies")
+                agg.add("R16.8", f_set, "with search_by_address, no other ID is left holding the address (the holder is found and evicted, or every entry was compared)", okl,
+                        "set_address(7, 0o15, search_by_address=True): %s - another ID can keep 0o15, two IDs share one address after load_dhcp()" % why)
                 dels = [e for e in muts if e.kind == "delitem"]
                 for dl in dels:
                     agg.add("R16.4", f_set, "search_by_address replaces the entry that holds this address", any(
